@@ -78,13 +78,27 @@ def run_impl(logls, sched, expectation, nlive, int_schedule):
             st.increment(l, nlive=n if not float(n).is_integer() else int(n))
     rect = float(st.logZ)
     vols = [float(v) for v in st.log_vols]
+    # reads must be idempotent and must not disturb one another, in any order
+    pre_w = np.array(st.log_posterior_weights, dtype=float, copy=True)
+    ess0 = float(st.effective_n_posterior_samples)
+    pre_w2 = np.array(st.log_posterior_weights, dtype=float, copy=True)
     trap = float(st.finalise())
-    lw = np.asarray(st.log_posterior_weights, dtype=float)
+    lw = np.array(st.log_posterior_weights, dtype=float, copy=True)
+    ess1 = float(st.effective_n_posterior_samples)
+    _ = st.log_evidence_error
+    lw2 = np.array(st.log_posterior_weights, dtype=float, copy=True)
+    ess2 = float(st.effective_n_posterior_samples)
+    reads_ok = (
+        pre_w.tobytes() == pre_w2.tobytes()
+        and lw.tobytes() == lw2.tobytes()
+        and (ess1 == ess2 or (ess1 != ess1 and ess2 != ess2))
+        and float(st.logZ) == trap
+    )
     if int_schedule:
         z1, w1 = compute_weights(np.array(logls), nlive, expectation=expectation)
     else:
         z1, w1 = compute_weights(np.array(logls), np.array(sched, dtype=float), expectation=expectation)
-    return dict(rect=rect, vols=vols, trap=trap, lw=lw, z1=float(z1), w1=np.asarray(w1, dtype=float),
+    return dict(rect=rect, vols=vols, trap=trap, lw=lw, z1=float(z1), w1=np.asarray(w1, dtype=float), reads_ok=reads_ok, ess=ess1,
                 logZ_attr=float(st.logZ), log_evidence=float(st.log_evidence))
 
 
@@ -112,6 +126,8 @@ def check_case(logls, sched, expectation, nlive, int_schedule, errs, label):
         errs.append((f"incremental-rectangle-logZ:{label}", f"{out['rect']!r} vs mpmath {rect!r} ({ctxt})"))
     if not close(out["trap"], trap, tol):
         errs.append((f"incremental-trapezoid-logZ:{label}", f"{out['trap']!r} vs mpmath {trap!r} ({ctxt})"))
+    if not out["reads_ok"]:
+        errs.append((f"reading-weights-ess-evidence-is-not-idempotent:{label}", ctxt))
     if out["logZ_attr"] != out["trap"] or out["log_evidence"] != out["trap"]:
         errs.append((f"finalise-return-vs-attribute:{label}", ctxt))
     if not close(out["z1"], trap, tol):
